@@ -284,7 +284,7 @@ def bounded(tier, seed, R):
                         R.guard('bounded/fresh_process_values', fresh, w)
         # (f) saving in one format does not leave another format stale
         for first, second in ((('pkl', 'yml'), ('yml',)), (('pkl', 'json'), ('json',)), (('pkl', 'yml'), ('pkl', 'yml'))):
-            wb = wbs[-1]
+            wb = W.WB({'A1': 3, 'A2': 10}, {'B1': '=A1*2', 'C1': '=B1+A2'}, 'partial-save')
             w = {'workbook': repr(wb), 'first_save': first, 'second_save': second}
 
             def stale_case():
